@@ -59,8 +59,12 @@ def _join_items(join, left_items, right_items, key='name', deep_merge_key=None):
                 deep_merge_key
             ]
             _deep_right_items = secondary_item[deep_merge_key]
+            # an 'outer' join stays 'outer' inside merged channels (clashes are refused
+            # by _join_channels); the unsafe joins keep the primary's items
             joined_items[keys.index(secondary_item[key])][deep_merge_key] = _join_items(
-                'left outer', _deep_left_items, _deep_right_items
+                'outer' if join == 'outer' else 'left outer',
+                _deep_left_items,
+                _deep_right_items,
             )
         # next, move over whole items where possible:
         #   - if no join logic
@@ -139,6 +143,13 @@ def _join_channels(join, left_channels, right_channels, merge=False):
         )
         incompatible_channels = [
             channel for channel, count in counted_channels.items() if count > 1
+        ]
+        # merged channels: a sample name defined differently by the two workspaces
+        incompatible_channels += [
+            channel['name']
+            for channel in joined_channels
+            if len({sample['name'] for sample in channel['samples']})
+            != len(channel['samples'])
         ]
         if incompatible_channels:
             raise exceptions.InvalidWorkspaceOperation(
